@@ -117,8 +117,32 @@ func registerIntrinsics(e *Engine) {
 		st.ConcreteClock = args[0].(*smt.Term).IsTrue()
 		return nil, true
 	}
+	// Pause: time passes. Natively a short sleep; under the executor a free yield point: the other
+	// runnable goroutines may run now (not counted against the pre-emption bound).
 	I[nd+"Pause"] = func(e *Engine, st *State, th *Thread, args []Value, call *ssa.CallCommon) (Value, bool) {
-		return nil, true
+		if th.Yielded {
+			th.Yielded = false
+			return nil, true
+		}
+		if e.Opt.Preempt < 0 || e.initMode {
+			return nil, true
+		}
+		others := false
+		for i, t := range st.Threads {
+			if i != st.Cur && e.runnable(st, t) {
+				others = true
+			}
+		}
+		if !others {
+			return nil, true
+		}
+		if e.chooseFree(st, 2, "yield at nd.Pause") == 0 {
+			return nil, true
+		}
+		th.Yielded = true
+		st.NeedSched = true
+		st.YieldFrom = th.ID
+		return nil, false
 	}
 	I[nd+"VisibleAtomics"] = func(e *Engine, st *State, th *Thread, args []Value, call *ssa.CallCommon) (Value, bool) {
 		st.VisibleAtomics = args[0].(*smt.Term).IsTrue()
